@@ -132,6 +132,12 @@ func checkC12(c *run.Ctx) {
 				}
 				perm[b.String()] = c12Value(r)
 			}
+			if r.IntN(12) == 0 {
+				// dimension names that contain the keyword itself, next to their own prefixes and suffixes
+				for _, dn := range [][]string{{"test_matrix"}, {"matrix_os", "os"}, {"arch", "archmatrix"}, {"matrix", "matrix.matrix"}, {"arch", "matrixarch"}}[r.IntN(5)] {
+					perm[dn] = c12Value(r)
+				}
+			}
 		}
 		dims := refmodel.SortedKeys(perm)
 		// a chain inside one Go map: a key that is exactly the token of one dimension, whose value in the permutation
